@@ -83,7 +83,9 @@ CONSTANTS MinTag,      \* 32  : length of the min transport's tag
           MarkMode,    \* "release" | "leak-on-missing" | "reinsert-on-missing"
           DeadlineSource, \* "private" | "shared"
           LookupMode,  \* "fresh" | "stale-after-validate"
-          MaxConns     \* connections per history (bounding only)
+          MaxConns,    \* connections per history (bounding only)
+          LookupLocks, \* "single" | "nested": read locks a lookup takes on the table's RWMutex
+          MaxWrites    \* registry writes by OTHER goroutines per history (bounding only; 0 = no concurrent writer)
 
 Transports == {"min", "prefix", "obfs4"}
 None == "none"
@@ -107,11 +109,17 @@ VARIABLES c,          \* the case
           entitled,   \* ghost: by the history of register / validate / expire operations R is validated and unexpired now
           snap,       \* memoised per-phantom view of R ("none": nothing memoised; only LookupMode # "fresh" ever fills it)
           conns,      \* connections so far in this history
+          rl,         \* read locks of the table's RWMutex the handler holds (inside a lookup)
+          wr,         \* a registry writer on ANOTHER goroutine: "idle" | "waiting" (its Lock() is announced and waits for the readers)
+          wleft,      \* writes that goroutine may still start
           obs
 
 tbl == <<tab, entitled, snap, conns>>
-vars == <<c, phase, alive, todo, rcvd, sent, readn, written, dlSet, expired, peerClosed, matched, consumed, used, returned, swept, regLock, seeded, dlKnown, tab, entitled, snap, conns, obs>>
-view == <<c, phase, alive, todo, rcvd, sent, readn, written, dlSet, expired, peerClosed, matched, consumed, used, returned, swept, regLock, seeded, dlKnown, tab, entitled, snap, conns>>
+lk == <<rl, wr, wleft>>
+\* read locks a lookup needs before it can read the per-phantom map
+Need == IF LookupLocks = "nested" THEN 2 ELSE 1
+vars == <<c, phase, alive, todo, rcvd, sent, readn, written, dlSet, expired, peerClosed, matched, consumed, used, returned, swept, regLock, seeded, dlKnown, tab, entitled, snap, conns, rl, wr, wleft, obs>>
+view == <<c, phase, alive, todo, rcvd, sent, readn, written, dlSet, expired, peerClosed, matched, consumed, used, returned, swept, regLock, seeded, dlKnown, tab, entitled, snap, conns, rl, wr, wleft>>
 
 avail == sent - readn
 
@@ -150,26 +158,27 @@ Init == /\ c \in Cases
         /\ matched = None /\ consumed = 0 /\ used = FALSE /\ returned = FALSE
         /\ swept = FALSE /\ regLock = "free" /\ seeded = FALSE /\ dlKnown = FALSE
         /\ tab \in {"valid", "tracked", "gone"} /\ entitled = (tab = "valid") /\ snap = "none" /\ conns = 1
+        /\ rl = 0 /\ wr = "idle" /\ wleft = MaxWrites
         /\ obs = [a |-> "Init"]
 
 \* ------------------------------ the peer ------------------------------
 Send(k) == /\ ~peerClosed /\ k > 0 /\ sent + k <= c.total
            /\ sent' = sent + k
-           /\ UNCHANGED <<tab, entitled, snap, conns, seeded, dlKnown, swept, regLock, c, phase, alive, todo, rcvd, readn, written, dlSet, expired, peerClosed, matched, consumed, used, returned>>
+           /\ UNCHANGED <<lk, tab, entitled, snap, conns, seeded, dlKnown, swept, regLock, c, phase, alive, todo, rcvd, readn, written, dlSet, expired, peerClosed, matched, consumed, used, returned>>
            /\ obs' = [a |-> "Send", k |-> k]
 PeerClose == /\ ~peerClosed /\ peerClosed' = TRUE
-             /\ UNCHANGED <<tab, entitled, snap, conns, seeded, dlKnown, swept, regLock, c, phase, alive, todo, rcvd, sent, readn, written, dlSet, expired, matched, consumed, used, returned>>
+             /\ UNCHANGED <<lk, tab, entitled, snap, conns, seeded, dlKnown, swept, regLock, c, phase, alive, todo, rcvd, sent, readn, written, dlSet, expired, matched, consumed, used, returned>>
              /\ obs' = [a |-> "PeerClose"]
 Expire == /\ dlSet /\ ~expired /\ matched = None /\ expired' = TRUE
-          /\ UNCHANGED <<tab, entitled, snap, conns, seeded, dlKnown, swept, regLock, c, phase, alive, todo, rcvd, sent, readn, written, dlSet, peerClosed, matched, consumed, used, returned>>
+          /\ UNCHANGED <<lk, tab, entitled, snap, conns, seeded, dlKnown, swept, regLock, c, phase, alive, todo, rcvd, sent, readn, written, dlSet, peerClosed, matched, consumed, used, returned>>
           /\ obs' = [a |-> "Expire"]
 
 \* ----------------------------- the handler -----------------------------
 HInit == /\ phase = "init"
-         /\ regLock = "free"                    \* countRegistrations takes the table's read lock
+         /\ regLock = "free" /\ wr = "idle"     \* countRegistrations takes the table's read lock (and gives it back)
          /\ dlSet' = TRUE /\ dlKnown' = seeded
          /\ phase' = IF c.occ = 0 THEN "drain" ELSE "read"
-         /\ UNCHANGED <<tab, entitled, snap, conns, seeded, swept, regLock, c, alive, todo, rcvd, sent, readn, written, expired, peerClosed, matched, consumed, used, returned>>
+         /\ UNCHANGED <<lk, tab, entitled, snap, conns, seeded, swept, regLock, c, alive, todo, rcvd, sent, readn, written, expired, peerClosed, matched, consumed, used, returned>>
          /\ obs' = [a |-> "SetDeadline"]
 
 Return(why) == /\ returned' = TRUE /\ phase' = "returned"
@@ -186,10 +195,11 @@ HRead ==
           /\ obs' = [a |-> "Read", n |-> k] /\ UNCHANGED returned
      ELSE IF peerClosed THEN Return("closed") /\ UNCHANGED <<rcvd, readn, todo>>
      ELSE /\ expired /\ Return("timeout") /\ UNCHANGED <<rcvd, readn, todo>>
-  /\ UNCHANGED <<tab, entitled, snap, conns, seeded, dlKnown, swept, regLock, c, alive, sent, written, dlSet, expired, peerClosed, matched, consumed, used>>
+  /\ UNCHANGED <<lk, tab, entitled, snap, conns, seeded, dlKnown, swept, regLock, c, alive, sent, written, dlSet, expired, peerClosed, matched, consumed, used>>
 
 HOffer(t) ==
   /\ phase = "offer" /\ t \in todo
+  /\ rl = Need /\ rl' = 0 /\ UNCHANGED <<wr, wleft>>      \* the lookup reads the map under its read lock(s) and releases them
   /\ LET v == Verdict(t, rcvd) IN
      /\ obs' = [a |-> "Verdict", t |-> t, r |-> v, n |-> rcvd]
      /\ CASE v = "again" -> /\ todo' = todo \ {t} /\ UNCHANGED <<alive, matched, consumed>>
@@ -206,24 +216,24 @@ HDrain ==
   /\ IF avail > 0 THEN \E k \in 1..avail : /\ readn' = readn + k /\ obs' = [a |-> "Read", n |-> k] /\ UNCHANGED <<returned, phase>>
      ELSE IF peerClosed THEN Return("closed") /\ UNCHANGED readn
      ELSE /\ expired /\ Return("timeout") /\ UNCHANGED readn
-  /\ UNCHANGED <<tab, entitled, snap, conns, seeded, dlKnown, swept, regLock, c, alive, todo, rcvd, sent, written, dlSet, expired, peerClosed, matched, consumed, used>>
+  /\ UNCHANGED <<lk, tab, entitled, snap, conns, seeded, dlKnown, swept, regLock, c, alive, todo, rcvd, sent, written, dlSet, expired, peerClosed, matched, consumed, used>>
 
 HSleep == /\ phase = "sleep" /\ expired /\ Return("slept")
-          /\ UNCHANGED <<tab, entitled, snap, conns, seeded, dlKnown, swept, regLock, c, alive, todo, rcvd, sent, readn, written, dlSet, expired, peerClosed, matched, consumed, used>>
+          /\ UNCHANGED <<lk, tab, entitled, snap, conns, seeded, dlKnown, swept, regLock, c, alive, todo, rcvd, sent, readn, written, dlSet, expired, peerClosed, matched, consumed, used>>
 
 \* found: the deadline is cleared, the registration marked used, the relay takes over (the bytes after the
 \* handshake that are already in the buffer are replayed in front of the live connection)
 HFound == /\ phase = "found"
-          /\ regLock = "free"                   \* markActive takes the table's write lock ...
+          /\ regLock = "free" /\ wr = "idle"    \* markActive takes the table's write lock ...
           /\ dlSet' = FALSE /\ used' = ~swept /\ phase' = "relay"
           /\ regLock' = IF swept /\ MarkMode = "leak-on-missing" THEN "held" ELSE "free"   \* ... and releases it on every path
           /\ tab' = IF swept /\ MarkMode = "reinsert-on-missing" THEN "valid" ELSE tab          \* ... and never files anything
-          /\ UNCHANGED <<entitled, snap, conns, seeded, dlKnown, swept, c, alive, todo, rcvd, sent, readn, written, expired, peerClosed, matched, consumed, returned>>
+          /\ UNCHANGED <<lk, entitled, snap, conns, seeded, dlKnown, swept, c, alive, todo, rcvd, sent, readn, written, expired, peerClosed, matched, consumed, returned>>
           /\ obs' = [a |-> "Found", t |-> matched]
 \* the expiry sweeper (another goroutine) removes the matched registration between the lookup and MarkActive
-SweepRemoves == /\ phase = "found" /\ ~swept /\ regLock = "free" /\ c.own
+SweepRemoves == /\ phase = "found" /\ ~swept /\ regLock = "free" /\ wr = "idle" /\ c.own
                 /\ swept' = TRUE /\ tab' = "gone" /\ entitled' = FALSE /\ snap' = "none"
-                /\ UNCHANGED <<conns, seeded, dlKnown, regLock, c, phase, alive, todo, rcvd, sent, readn, written, dlSet, expired, peerClosed, matched, consumed, used, returned>>
+                /\ UNCHANGED <<lk, conns, seeded, dlKnown, regLock, c, phase, alive, todo, rcvd, sent, readn, written, dlSet, expired, peerClosed, matched, consumed, used, returned>>
                 /\ obs' = [a |-> "Swept"]
 \* after authentication the station may write (obfs4 server handshake, covert replies)
 \* (obfs4 writes its server handshake inside WrapConnection, i.e. while the matching verdict is being produced)
@@ -231,39 +241,65 @@ HWrite == /\ \/ phase \in {"found", "relay"}
              \/ (phase = "offer" /\ \E t \in todo : Verdict(t, rcvd) = "match")
           /\ written < MaxW
           /\ written' = written + 1
-          /\ UNCHANGED <<tab, entitled, snap, conns, seeded, dlKnown, swept, regLock, c, phase, alive, todo, rcvd, sent, readn, dlSet, expired, peerClosed, matched, consumed, used, returned>>
+          /\ UNCHANGED <<lk, tab, entitled, snap, conns, seeded, dlKnown, swept, regLock, c, phase, alive, todo, rcvd, sent, readn, dlSet, expired, peerClosed, matched, consumed, used, returned>>
           /\ obs' = [a |-> "Write"]
 HRelayRead == /\ phase = "relay" /\ avail > 0
               /\ \E k \in 1..avail : readn' = readn + k /\ obs' = [a |-> "Read", n |-> k]
-              /\ UNCHANGED <<tab, entitled, snap, conns, seeded, dlKnown, swept, regLock, c, phase, alive, todo, rcvd, sent, written, dlSet, expired, peerClosed, matched, consumed, used, returned>>
+              /\ UNCHANGED <<lk, tab, entitled, snap, conns, seeded, dlKnown, swept, regLock, c, phase, alive, todo, rcvd, sent, written, dlSet, expired, peerClosed, matched, consumed, used, returned>>
 \* the relay ends when either side ends (Relay.tla has the details); the handler then returns
 HRelayReturn == /\ phase = "relay" /\ Return("relayed")
-                /\ UNCHANGED <<tab, entitled, snap, conns, seeded, dlKnown, swept, regLock, c, alive, todo, rcvd, sent, readn, written, dlSet, expired, peerClosed, matched, consumed, used>>
+                /\ UNCHANGED <<lk, tab, entitled, snap, conns, seeded, dlKnown, swept, regLock, c, alive, todo, rcvd, sent, readn, written, dlSet, expired, peerClosed, matched, consumed, used>>
 
-Handler == HInit \/ HRead \/ (\E t \in Transports : HOffer(t)) \/ HDrain \/ HSleep \/ HFound \/ HWrite \/ HRelayRead \/ HRelayReturn
+\* ------------------- the table's RWMutex: lookups against writers on other goroutines -------------------
+\* Every offer is a lookup: the transport asks the table for the phantom's registrations (GetRegistrations) and reads the map under
+\* the table's read lock.  Go's sync.RWMutex prefers writers: once a Lock() call has announced itself (wr = "waiting") every NEW
+\* RLock() queues behind it - also the RLock() of a goroutine that already holds a read lock (the mutex is not reentrant).
+\* LookupLocks = "single": one RLock per lookup (the code).  "nested": the lookup calls, while holding the read lock, a helper that
+\* takes it again (a broken instance): a writer that announces itself between the two waits for the first read lock for ever, the
+\* second RLock waits for the writer for ever - the handler stops reading and never reaches its deadline (Terminates is violated),
+\* and so does every later lookup on the table.
+HRLock == /\ phase = "offer" /\ todo # {} /\ rl < Need
+          /\ regLock = "free" /\ wr = "idle"
+          /\ rl' = rl + 1
+          /\ UNCHANGED <<wr, wleft, tab, entitled, snap, conns, seeded, dlKnown, swept, regLock, c, phase, alive, todo, rcvd, sent, readn, written, dlSet, expired, peerClosed, matched, consumed, used, returned>>
+          /\ obs' = [a |-> "RLock", k |-> rl + 1]
+\* an ingest worker tracking / validating a registration, MarkActive of another connection, the expiry sweeper - for OTHER phantoms or
+\* sessions: nothing this connection's case or R's entry depends on changes, only the lock is asked for
+WAnnounce == /\ wr = "idle" /\ wleft > 0 /\ regLock = "free"
+             /\ wr' = "waiting" /\ wleft' = wleft - 1
+             /\ UNCHANGED <<rl, tab, entitled, snap, conns, seeded, dlKnown, swept, regLock, c, phase, alive, todo, rcvd, sent, readn, written, dlSet, expired, peerClosed, matched, consumed, used, returned>>
+             /\ obs' = [a |-> "WLockWait"]
+\* the readers have drained: the writer gets the lock, writes, unlocks
+WWrite == /\ wr = "waiting" /\ rl = 0
+          /\ wr' = "idle"
+          /\ UNCHANGED <<rl, wleft, tab, entitled, snap, conns, seeded, dlKnown, swept, regLock, c, phase, alive, todo, rcvd, sent, readn, written, dlSet, expired, peerClosed, matched, consumed, used, returned>>
+          /\ obs' = [a |-> "WWrite"]
+Writer == WAnnounce \/ WWrite
+
+Handler == HInit \/ HRLock \/ HRead \/ (\E t \in Transports : HOffer(t)) \/ HDrain \/ HSleep \/ HFound \/ HWrite \/ HRelayRead \/ HRelayReturn
 \* an outsider registers as a legacy client just before it connects
 LegacySelect == /\ phase = "init" /\ ~seeded
                 /\ seeded' = (DeadlineSource = "shared")
-                /\ UNCHANGED <<tab, entitled, snap, conns, dlKnown, swept, regLock, c, phase, alive, todo, rcvd, sent, readn, written, dlSet, expired, peerClosed, matched, consumed, used, returned>>
+                /\ UNCHANGED <<lk, tab, entitled, snap, conns, dlKnown, swept, regLock, c, phase, alive, todo, rcvd, sent, readn, written, dlSet, expired, peerClosed, matched, consumed, used, returned>>
                 /\ obs' = [a |-> "LegacyReg"]
 
 \* ------------------- the table between connections, the next connection -------------------
 conn == <<c, phase, alive, todo, rcvd, sent, readn, written, dlSet, expired, peerClosed, matched, consumed, used, returned, swept, dlKnown>>
-Idle == phase = "returned" /\ conns < MaxConns /\ regLock = "free"
+Idle == phase = "returned" /\ conns < MaxConns /\ regLock = "free" /\ wr = "idle"
 \* the ingest worker that tracked R has finished its covert / liveness checks: AddRegistration
 Validate == /\ Idle /\ tab = "tracked"
             /\ tab' = "valid" /\ entitled' = TRUE
-            /\ UNCHANGED <<snap, conns, conn, regLock, seeded>>     \* (nothing memoised may survive this - "fresh" never memoises)
+            /\ UNCHANGED <<lk, snap, conns, conn, regLock, seeded>>     \* (nothing memoised may survive this - "fresh" never memoises)
             /\ obs' = [a |-> "Validate"]
 \* R outlived its (unused or active) lifetime and the sweeper removed it
 SweepIdle == /\ Idle /\ tab # "gone"
              /\ tab' = "gone" /\ entitled' = FALSE /\ snap' = "none"
-             /\ UNCHANGED <<conns, conn, regLock, seeded>>
+             /\ UNCHANGED <<lk, conns, conn, regLock, seeded>>
              /\ obs' = [a |-> "SweepIdle"]
 \* a new registration message for R: tracked again, to be validated again
 Retrack == /\ Idle /\ tab = "gone"
            /\ tab' = "tracked" /\ snap' = "none"
-           /\ UNCHANGED <<entitled, conns, conn, regLock, seeded>>
+           /\ UNCHANGED <<lk, entitled, conns, conn, regLock, seeded>>
            /\ obs' = [a |-> "Retrack"]
 \* the next connection to the phantom meets the table (its lock, the generator) as the history left it
 NextConn(d) == /\ phase = "returned" /\ conns < MaxConns
@@ -273,12 +309,12 @@ NextConn(d) == /\ phase = "returned" /\ conns < MaxConns
                /\ dlSet' = FALSE /\ expired' = FALSE /\ peerClosed' = FALSE
                /\ matched' = None /\ consumed' = 0 /\ used' = FALSE /\ returned' = FALSE
                /\ swept' = FALSE /\ dlKnown' = FALSE
-               /\ UNCHANGED <<tab, entitled, snap, regLock, seeded>>
+               /\ UNCHANGED <<lk, tab, entitled, snap, regLock, seeded>>
                /\ obs' = [a |-> "NextConn", c |-> d]
 Table == Validate \/ SweepIdle \/ Retrack \/ (\E d \in Cases : NextConn(d))
-Peer == (\E k \in 1..3 : Send(k)) \/ PeerClose \/ Expire \/ SweepRemoves \/ LegacySelect \/ Table
+Peer == (\E k \in 1..3 : Send(k)) \/ PeerClose \/ Expire \/ SweepRemoves \/ LegacySelect \/ Table \/ Writer
 Next == Handler \/ Peer
-Spec == Init /\ [][Next]_vars /\ WF_vars(Handler) /\ WF_vars(Expire)
+Spec == Init /\ [][Next]_vars /\ WF_vars(Handler) /\ WF_vars(Expire) /\ WF_vars(WWrite)
 
 \* ------------------------------ properties ------------------------------
 \* C03: nothing is written to a peer that has not authenticated
@@ -304,6 +340,8 @@ MarkedUsed == phase = "relay" => (used \/ swept)
 DeadlineUnpredictable == ~dlKnown
 \* C04: the registration table stays usable for the next connection, whatever this one met
 RegistryFree == regLock = "free"
+\* C03 / C04: a lookup never asks for the table's read lock while it holds it (what makes a queued writer fatal)
+LockOnce == rl <= 1
 \* liveness: a complete valid flight is eventually recognised; every connection eventually ends or is relayed
 Recognised == (Ent /\ sent >= c.H /\ ~peerClosed) ~> (matched # None \/ peerClosed \/ expired)
 Terminates == []<>(returned \/ phase = "relay")
